@@ -183,7 +183,7 @@ func c05Risky(c c05Case, typ string) bool {
 		return true
 	}
 	// nesting deep enough to approach the runtime's stack limit
-	return c.RepCount >= 300000 && typ != ""
+	return c.RepCount >= 600000 && typ != ""
 }
 
 type c05ChildReport struct {
@@ -753,7 +753,7 @@ func c05Gen(t *rapid.T) c05Case {
 			c.RepUnit = []byte{0x09, 0x00, 0x00, 0x00, 0x01}
 		}
 		c.RepCount = rapid.SampledFrom([]int{10, 200, 1000, 1000, 5000, 20000, 20000, 100000, 400000}).Draw(t, "depth")
-		if verifkit.Thorough() && c.Dir == int(proto.ClientBound) && !c.Direct && rapid.IntRange(0, 15).Draw(t, "veryDeep") == 0 {
+		if verifkit.Thorough() && c.Dir == int(proto.ClientBound) && !c.Direct && rapid.IntRange(0, 63).Draw(t, "veryDeep") == 0 {
 			// only reachable through a compressed frame (clientbound cap 8 MiB)
 			c.Compressed = true
 			c.RepCount = rapid.SampledFrom([]int{800000, 1700000, 2700000}).Draw(t, "veryDeepDepth")
